@@ -38,12 +38,45 @@ template<class Solver, class SetP> static void solve_case(const std::string &nm,
     bool same=true; for (int r=1;r<R;++r) same=same&&threw[r]==threw[0]; hx::require("all ranks agree on the outcome (result or breakdown)", same); if (threw[0]) { hx::count("breakdown paths"); return; }
     for (int r=1;r<R;++r) same=same&&its[r]==its[0]&&hx::same_handle(ress[r],ress[0]); hx::require("every rank reports the same iteration count and residual (identical operations)", same);
     scalar res=hx::unfold(ress[0]); Vec Ax=hx::dense_mv(A,xs); scalar rr=0, ff=0; for (int i=0;i<n;++i) { scalar d=f[i]-Ax[i]; rr+=d*d; ff+=f[i]*f[i]; } hx::prove_eq("the assembled solution has the reported global residual: res^2 <f,f> = ||f - A x||^2", res*res*ff, rr); },coo); }
+// distributed coarsening objects inspected per level: aggregates form a global partition, R = P^T, coarse matrix = (1/over_interp) R A P.
+// Matrix = s * (concrete SPD M-matrix) with ONE symbolic scale s > 0 (strength-of-connection decisions are scale free), scalar and 2x2 block values.
+#include <amgcl/value_type/static_matrix.hpp>
+#include <amgcl/adapter/block_matrix.hpp>
+template<class DMx> static void gather(const DMx &D, int rb, int cb, int B, std::vector<Vec> &G) { const auto &L=*D.local(); const auto &Rm=*D.remote(); typedef typename std::decay<decltype(L.val[0])>::type V;
+    auto put=[&](size_t i, ptrdiff_t gc, const V &v) { for (int r=0;r<B;++r) for (int c=0;c<B;++c) { scalar e; if constexpr (std::is_same<V,scalar>::value) e=v; else e=v(r,c); G[(rb+i)*B+r][gc*B+c]=G[(rb+i)*B+r][gc*B+c]+e; } };
+    for (size_t i=0;i<L.nrows;++i) { for (ptrdiff_t k=L.ptr[i];k<L.ptr[i+1];++k) put(i,cb+L.col[k],L.val[k]); for (ptrdiff_t k=Rm.ptr[i];k<Rm.ptr[i+1];++k) put(i,Rm.col[k],Rm.val[k]); } }
+template<int B, bool SMOOTHED> static void coarsening_case(const Pattern &pb, hx::Rng &rng, const std::vector<int> &rows, int R) { hx::CaseOptions coo; coo.max_paths=6; hx::run_case(std::string("coarsening/")+(SMOOTHED?"smoothed_aggregation":"aggregation")+"/b"+std::to_string(B)+"/R"+std::to_string(R)+"/rows"+pname(rows)+"/"+pb.name, [&]() {
+    typedef typename std::conditional<B==1,scalar,amgcl::static_matrix<scalar,B,B>>::type V; typedef be::builtin<V> VB; typedef mp::distributed_matrix<VB> DM; typedef be::crs<V,ptrdiff_t,ptrdiff_t> VM;
+    hx::Rng r2(rng.s); int nb=pb.n, n=nb*B; scalar sc=var("s",1.0); hx::assume(hx::lt(scalar(0),sc));
+    // block matrix: SPD M-matrix on the block graph (x) non-commuting, non-symmetric-inside-the-block coupling blocks; scalar case: the M-matrix itself
+    SCrs Mg=hx::mmatrix(pb,r2); std::vector<V> vals; for (int I=0;I<nb;++I) for (ptrdiff_t k=Mg.ptr[I];k<Mg.ptr[I+1];++k) { int J=Mg.col[k]; if constexpr (B==1) vals.push_back(sc*Mg.val[k]); else { V b; for (int r=0;r<B;++r) for (int c=0;c<B;++c) { double w = r==c ? 1.0 : (I==J ? 0.125*(r<c?1:-1)*0 + 0.125 : 0.25*((r+2*c+I+J)%3-1)); if (I==J && r!=c) w=0.125; b(r,c)=sc*Mg.val[k]*scalar(w); } vals.push_back(b); } }
+    if constexpr (B>1) { /* keep the expanded matrix symmetric: block (J,I) = transpose of block (I,J) */ for (int I=0;I<nb;++I) for (ptrdiff_t k=Mg.ptr[I];k<Mg.ptr[I+1];++k) { int J=Mg.col[k]; if (J<I) for (ptrdiff_t q=Mg.ptr[J];q<Mg.ptr[J+1];++q) if (Mg.col[q]==I) for (int r=0;r<B;++r) for (int c=0;c<B;++c) vals[k](r,c)=vals[q](c,r); } }
+    std::vector<int> beg(R+1,0); for (int r=0;r<R;++r) beg[r+1]=beg[r]+rows[r];
+    std::vector<ptrdiff_t> ncl(R,0), csh(R,0); std::vector<std::shared_ptr<DM>> Ps(R), Rs(R), Acs(R), Pt(R); std::vector<Vec> Ad(n,Vec(n,scalar(0))); float over=1.5f;
+#ifdef HX_SYM
+    symmpi::symx_reduce()=[](int op, void *acc, const void *in) { scalar a, b; memcpy(&a,acc,8); memcpy(&b,in,8); if (op==MPI_SUM) a=a+b; else if (op==MPI_PROD) a=a*b; else throw std::runtime_error("symmpi: only SUM/PROD on symbolic scalars"); memcpy(acc,&a,8); };
+#endif
+    symmpi::run(R,[&](int rank) { mp::communicator comm(MPI_COMM_WORLD); int rb=beg[rank], re=beg[rank+1], nl=re-rb; auto loc=std::make_shared<VM>(); loc->set_size(nl,nb,true); for (int i=rb;i<re;++i) loc->ptr[i-rb+1]=Mg.ptr[i+1]-Mg.ptr[i]; loc->set_nonzeros(loc->scan_row_sizes()); for (int i=rb;i<re;++i) for (ptrdiff_t k=Mg.ptr[i];k<Mg.ptr[i+1];++k) { ptrdiff_t d=loc->ptr[i-rb]+(k-Mg.ptr[i]); loc->col[d]=Mg.col[k]; loc->val[d]=vals[k]; }
+        DM D(comm,*loc,nl); gather(D,rb,rb,B,Ad);
+        typedef typename std::conditional<SMOOTHED,mp::coarsening::smoothed_aggregation<VB>,mp::coarsening::aggregation<VB>>::type C; typename C::params cp; C c(cp);
+        { typename mp::coarsening::pmis<VB>::params pp; mp::coarsening::pmis<VB> ag(D,pp); Pt[rank]=ag.p_tent; }
+        std::shared_ptr<DM> P, Rr; std::tie(P,Rr)=c.transfer_operators(D); Ps[rank]=P; Rs[rank]=Rr; ncl[rank]=P->loc_cols(); csh[rank]=P->loc_col_shift(); Acs[rank]=c.coarse_operator(D,*P,*Rr); });
+    ptrdiff_t nc=0; for (int r=0;r<R;++r) nc+=ncl[r]; bool shifts=true; { ptrdiff_t a=0; for (int r=0;r<R;++r) { shifts=shifts&&csh[r]==a; a+=ncl[r]; } } hx::require("coarse unknowns are numbered contiguously over the ranks", shifts); if (!shifts) return;
+    std::vector<Vec> Pd(n,Vec(nc*B,scalar(0))), Rd(nc*B,Vec(n,scalar(0))), Cd(nc*B,Vec(nc*B,scalar(0))), Td(n,Vec(nc*B,scalar(0)));
+    for (int r=0;r<R;++r) { gather(*Ps[r],beg[r],(int)csh[r],B,Pd); gather(*Rs[r],(int)csh[r],beg[r],B,Rd); gather(*Acs[r],(int)csh[r],(int)csh[r],B,Cd); gather(*Pt[r],beg[r],(int)Pt[r]->loc_col_shift(),B,Td); }
+    // aggregates: every unknown with an off-diagonal coupling is in exactly one aggregate; no empty aggregate
+    { bool one=true, nonempty=true; std::string bad; ptrdiff_t nct=Td.empty()?0:(ptrdiff_t)Td[0].size(); std::vector<int> cnt(nct,0); for (int i=0;i<n;++i) { int k=0; for (ptrdiff_t j=0;j<nct;++j) if (!hx::is_zero_value(Td[i][j])) { ++k; cnt[j]++; } bool isolated = (Mg.ptr[i/B+1]-Mg.ptr[i/B])<=1; if (!isolated && k!=1) { one=false; if (bad.empty()) bad="unknown "+std::to_string(i)+" is in "+std::to_string(k)+" aggregates"; } } for (ptrdiff_t j=0;j<nct;++j) nonempty=nonempty&&cnt[j]>0;
+      hx::require("distributed aggregation: each non-isolated unknown is in exactly one aggregate", one, bad); hx::require("distributed aggregation: no empty aggregate", nonempty); }
+    Vec rg, rr, cg, cr; for (int i=0;i<n;++i) for (ptrdiff_t j=0;j<nc*B;++j) { rg.push_back(Rd[j][i]); rr.push_back(Pd[i][j]); } hx::prove_eq_vec("restriction = transpose of the prolongation (assembled over the ranks)", rg, rr);
+    std::vector<Vec> AP(n,Vec(nc*B,scalar(0))); for (int i=0;i<n;++i) for (int k=0;k<n;++k) if (!hx::is_zero_value(Ad[i][k])) for (ptrdiff_t j=0;j<nc*B;++j) AP[i][j]+=Ad[i][k]*Pd[k][j];
+    for (ptrdiff_t a=0;a<nc*B;++a) for (ptrdiff_t b=0;b<nc*B;++b) { scalar t=0; for (int i=0;i<n;++i) t+=Rd[a][i]*AP[i][b]; cg.push_back(Cd[a][b]); float inv=1/over; cr.push_back(SMOOTHED ? t : t*scalar((double)inv)); }   /* scaled_galerkin(..., float s): the factor is the FLOAT 1/1.5f */
+    hx::prove_eq_vec(std::string("distributed coarse matrix = ")+(SMOOTHED?"R A P":"(1/over_interp) R A P")+" (assembled over the ranks)", cg, cr); },coo); }
 struct symx_rethrow_t {}; 
 int main(int argc, char **argv) {
     hx::parse_args(argc,argv); bool T=hx::thorough(); hx::Rng rng(hx::args().seed);
     hx::encodes("mpi::make_solver<mpi::amg<builtin<scalar>, mpi::coarsening::{smoothed_aggregation,aggregation} (PMIS), mpi::relaxation::{spai0,damped_jacobi,gauss_seidel}, mpi::direct::skyline_lu, mpi::partition::merge>, mpi::solver::{cg,bicgstab,gmres}>");
     hx::assume_note("MPI stand-in as in C11 (threads under a global baton, FIFO matching, rendezvous collectives, sub-communicators by MPI_Comm_split); L-mode: concrete SPD M-matrices, vectors symbolic, inner coefficients cut");
-    hx::assume_note("NOT decided: convergence of every distributed combination on SPD M-matrices (long floating-point runs), ParMETIS / PT-Scotch repartitioning and PaStiX (not installed), distributed aggregates as a global partition and coarse matrices = R A P (the per-level objects are not inspected here), block value types");
+    hx::assume_note("NOT decided: convergence of every distributed combination on SPD M-matrices (long floating-point runs), ParMETIS / PT-Scotch repartitioning and PaStiX (not installed); near-null-space reproduction; block value types in the coupled solve (block values are covered for the coarsening objects)");
     typedef mp::amg<BE,mp::coarsening::smoothed_aggregation<BE>,mp::relaxation::spai0<BE>,mp::direct::skyline_lu<scalar>,mp::partition::merge<BE>> A1; typedef mp::amg<BE,mp::coarsening::aggregation<BE>,mp::relaxation::damped_jacobi<BE>,mp::direct::skyline_lu<scalar>,mp::partition::merge<BE>> A2;
     auto sp=[](auto &p){ p.precond.coarse_enough=2; p.solver.maxiter=1; p.solver.tol=scalar(0); p.solver.abstol=scalar(0); };
     typedef mp::amg<BE,mp::coarsening::smoothed_aggregation<BE>,mp::relaxation::gauss_seidel<BE>,mp::direct::skyline_lu<scalar>,mp::partition::merge<BE>> A3;
@@ -51,5 +84,7 @@ int main(int argc, char **argv) {
     for (auto &p : std::vector<Pattern>{hx::band_pattern(5,1),hx::grid_pattern(3,2),hx::band_pattern(8,1),hx::grid_pattern(3,3)}) for (int R=1;R<=(T?4:3);++R) { std::vector<std::vector<int>> parts; compositions(p.n,R,{},parts); size_t k=0; for (auto &pt : parts) { ++k; if (p.n>6 && !(T || k%7==1)) continue; if (R==3 && p.n<=6 && !(T || k%3==1)) continue;
         solve_case<mp::make_solver<A1,mp::solver::cg<BE>>>("sa+spai0+cg",p,rng,pt,R,sp); solve_case<mp::make_solver<A2,mp::solver::bicgstab<BE>>>("agg+jacobi+bicgstab",p,rng,pt,R,sp); solve_case<mp::make_solver<A1,mp::solver::gmres<BE>>>("sa+spai0+gmres",p,rng,pt,R,sp);
         if (T || k%2==1) { solve_case<mp::make_solver<A3,mp::solver::cg<BE>>>("sa+gs+cg",p,rng,pt,R,sp); solve_case<mp::make_solver<A1,mp::solver::cg<BE>>>("sa+spai0+cg-k2",p,rng,pt,R,sp2); } } }
+    for (auto &p : std::vector<Pattern>{hx::band_pattern(6,1),hx::grid_pattern(3,2),hx::band_pattern(10,1),hx::grid_pattern(4,3)}) for (int R=1;R<=(T?4:3);++R) { std::vector<std::vector<int>> parts; compositions(p.n,R,{},parts); size_t k=0; for (auto &pt : parts) { ++k; bool onerow=false; for (int v : pt) onerow=onerow||v==1; if (!(T || R==1 || (p.n<=6 && k%3==1) || (onerow && k%5<2) || k%11==0)) continue;
+        coarsening_case<1,false>(p,rng,pt,R); coarsening_case<1,true>(p,rng,pt,R); if (p.n<=6 || T) { coarsening_case<2,true>(p,rng,pt,R); if (k%2==0) coarsening_case<2,false>(p,rng,pt,R); } } }
     return hx::finish();
 }
